@@ -229,6 +229,20 @@ PROPS = {
         assumptions=["float multiplication by the verified ratio is the intended rounding (IEEE)"],
         unreached=["Duration as fractional milliseconds (value/primitive.rs)", "AttachUnit in the macro", "distribution.rs Mean / Distribution"],
     ),
+    "C20": dict(
+        verus=[("mrs", {}), ("mrs_hist", {})],
+        technique="Verus contracts on the real metrics.rs bridge readout (visitor callbacks rewritten to loops over the registered metrics) and on the bridge's histogram cell (record, drain with closure contracts, midpoint)",
+        level_text="Deductive proof (Verus/z3) of the sequential half of a readout, for any number of registered metrics: every registered counter is swapped to zero exactly once and the value swapped out is what the readout reports for it "
+                   "(suppressed only when it is zero and zero counters are not emitted); every gauge is loaded once and reported as that bit pattern; every histogram is drained once and its buckets reported; the reported lists are "
+                   "permutations of exactly these; the histogram cell's record is one add of the value with count 1, and its drain reports one Bucket{midpoint of the range, count} per non-empty bucket of the atomic snapshot, in order. "
+                   "NOT decided: atomicity of swap / drain against concurrent updates (the property's interleaving quantifier), the Entry impl that writes names, labels and units, the reporter loop.",
+        level_note="Trusted: Verus + z3; metrics-util's Registry visitors call their callback once per registered metric (rewrite V1 turns the three callbacks, which push into captured vectors, into loops over a stand-in iterator); AtomicU64::swap / load and "
+                   "AtomicHistogram::drain are witnessed by predicates (linearizable atomics assumed); sort_by(key) is a permutation (V2); the `histogram` dependency as in C11. A bucket count is truncated to u32 by the code (more than 2^32 observations "
+                   "in one bucket between two readouts would be under-reported): stated, not claimed.",
+        explanation="metrics.rs bridge readout and histogram cell, sequential contracts",
+        assumptions=["atomic swap(0) / drain are linearizable, so an increment lands in exactly one readout", "Registry::visit_* visits every registered metric exactly once"],
+        unreached=["MetricAccumulatorEntry's Entry::write (names, labels as dimensions, units)", "reporter task", "unit mapping"],
+    ),
     "C18": dict(
         verus=[("timers", {})],
         kani=["timers_shared"],
